@@ -49,15 +49,32 @@ def _field_def(t, opt, sub=None):
     return (ann, DEFAULTS[t])
 
 
-def build_model(shape):
-    m = _MODEL_CACHE.get(shape)
+def build_model(shape, twin=False):
+    """Model class for a shape (cached). `twin=True` gives a second, distinct class with equal fields
+    (an equal-but-distinct schema: an instance of one is not an instance of the other)."""
+    key = (shape, "twin") if twin else shape
+    m = _MODEL_CACHE.get(key)
     if m is None:
         defs = {}
         for f in shape:
             defs[f[0]] = _field_def(f[1], f[2] if f[1] != "model" or f[2] != 2 else 0, f[3] if len(f) > 3 else None)
         m = create_model("S%d" % len(_MODEL_CACHE), **defs)
-        _MODEL_CACHE[shape] = m
+        _MODEL_CACHE[key] = m
     return m
+
+
+_SIBLING = {"int": "str", "str": "int", "float": "str", "bool": "str", "list_int": "list_str", "list_str": "list_int"}
+
+
+def sibling_shape(rng, shape):
+    """Same field names, one top-level scalar/list field re-typed: a different schema that many of the same
+    raw texts still (or no longer) satisfy."""
+    idx = [i for i, f in enumerate(shape) if f[1] in _SIBLING]
+    if not idx:
+        return shape
+    i = rng.choice(idx)
+    f = shape[i]
+    return shape[:i] + ((f[0], _SIBLING[f[1]], f[2]),) + shape[i + 1:]
 
 
 def shape_key(shape):
@@ -67,6 +84,15 @@ def shape_key(shape):
 # ----------------------------------------------------------------------------- values
 PLAIN_WORDS = ["widget", "Alice", "bob", "x1", "alpha", "Beta9", "north", "item", "zz", "Q", "lorem", "ipsum",
                "42", "007", "café", "日本", "naïve", "truth", "nothing", "nan0"]
+
+# non-ASCII typography / look-alikes / normalisation-unstable code points: any clean-up of the raw text
+# (quote straightening, NFC/NFKC, case folding, whitespace collapsing, invisible-character stripping) changes them
+UNI_WORDS = ["it\u2019s", "\u201cquoted\u201d", "\u2018single\u2019", "\u201alow\u2018", "\u201ehigh\u201c", "\u00abguillemets\u00bb",
+             "na\u00efve \u2013 dash", "em\u2014dash", "wait\u2026", "\ufb01nance", "\uff11\uff12\uff13", "\uff54\uff52\uff55\uff45",
+             "\uff21\uff22", "e\u0301", "\u00e9", "a\u00a0b", "zero\u200bwidth", "ltr\u200emark", "x\u2028y", "in\ufeffside",
+             "\uff02fw\uff02", "\uff07", "\uff5bx\uff5d", "k\uff1av", "a\uff0cb", "\u0130stanbul", "Stra\u00dfe", "\u2126", "\u212a",
+             "\u00bd", "x\u00b2", "\u2122", "wide\u3000space", "5\u2032 3\u2033", "\u02bcmod", "`\u00b4", "soft\u00adhyphen",
+             "\u2212 1", "a\u2044b", "\u01c5", "\u1e9e", "o\u0308", "\u00f6"]
 
 # hostile fragments grouped by the repair-table kind they can trigger inside a string literal
 HOSTILE = {
@@ -83,14 +109,18 @@ HOSTILE = {
     "jsonish": ['{"age": 5}', "[1, 2]", '{"name": "x", "age": 1}', '{"x": 1, "y": 2}', "{'a': 1}",
                 '{"name": "inner"}', "[]", '{"note": null}'],
 }
+HOSTILE["unicode"] = UNI_WORDS
 HOSTILE_CLASSES = ["python-literal", "python-literal", "trailing-comma", "undefined-nan", "quote-swap",
-                   "unquoted-key", "neutral", "neutral", "jsonish"]
+                   "unquoted-key", "neutral", "neutral", "jsonish", "unicode", "unicode"]
 
 
 def plain_string(rng):
     if rng.random() < 0.05:
         return ""
-    return " ".join(rng.choice(PLAIN_WORDS) for _ in range(rng.randint(1, 3)))
+    words = [rng.choice(PLAIN_WORDS) for _ in range(rng.randint(1, 3))]
+    if rng.random() < 0.08:
+        words[rng.randrange(len(words))] = rng.choice(UNI_WORDS)
+    return " ".join(words)
 
 
 def hostile_string(rng, n_groups_changing):
